@@ -1,10 +1,15 @@
 (* C01 — Replicas of an object tree converge under any message schedule.
    Only property theorems (closed by [exact]), non-vacuity examples and Print Assumptions.
-   Model: Model/TreeSync.v; proofs: Proofs/TreeSyncClosure.v, TreeSyncConverge.v, TreeSyncSpec.v. *)
+   Model: Model/TreeSync.v; proofs: Proofs/TreeSyncClosure.v, TreeSyncConverge.v, TreeSyncSpec.v, TreeSyncSnapshot.v
+   (snapshot discipline), TreeSyncExchange.v (one answered request / one exchange / convergence of the stored sets),
+   TreeSyncHeads.v (heads = childless members of the store; model meets the final conjunct of spec_C01),
+   TreeSyncFair.v (executable recognisers of exchanges, for the examples), TreeSyncExact.v (upper bounds: an exchange
+   gives exactly the union; responses carry only stored changes). *)
 From Coq Require Import List NArith Bool Arith.
 Import ListNotations.
 From AnySync Require Import Lib.Dag Model.Dfs Model.Tree Model.LoadIter Model.TreeSync
-  Proofs.TreeSyncClosure Proofs.TreeSyncConverge Proofs.TreeSyncSpec Run.C01_run.
+  Proofs.LoadIter Proofs.TreeSyncClosure Proofs.TreeSyncConverge Proofs.TreeSyncSpec Proofs.TreeSyncSnapshot
+  Proofs.TreeSyncExchange Proofs.TreeSyncHeads Proofs.TreeSyncFair Proofs.TreeSyncExact Run.C01_run.
 Open Scope N_scope.
 
 (* (1) Causal closure is an invariant of EVERY trace: for every number of replicas, every label sequence (local
@@ -34,7 +39,7 @@ Print Assumptions c01_advertised_is_stored.
 
 (* The model satisfies the per-replica conjunct of spec_C01 (stored set causally closed, heads stored) in every
    reachable state; the advertised-message conjunct is c01_advertised_is_stored (head updates, requests, empty
-   responses; the changes of response batches are C09's c09_nothing_outside). *)
+   responses) + c01_responses_are_stored (response batches, below); the final conjunct is c01_model_meets_spec_final. *)
 Theorem c01_model_meets_spec_steps_partial : forall nb n root size ls,
   cprev root = [] ->
   let w := run nb (init_world n root size) ls in
@@ -66,21 +71,11 @@ Proof.
 Qed.
 Print Assumptions c01_universe_is_union.
 
-(* (3) Convergence — PARTIAL.
-   Full statement (DESIGN.md c01_convergence): from any reachable state, after any fair anti-entropy phase (every
-   unordered pair completes a lossless exchange, in any order, no LocalAdd meanwhile, arbitrary other deliveries /
-   drops / duplicates interleaved) all replicas have the same stored set (= the union) and the same heads.
-   Proved: for any phase [ls] without local adds, with ARBITRARY deliveries in it, from any state satisfying the
-   invariants (every reachable state does): if for every ordered pair (a, b) there is a point of the phase at which b
-   stores everything a stored when the phase began (what a completed exchange between a and b achieves for both
-   orders), then at the end every replica stores exactly the universe = the union of all stored sets — all stored
-   sets are equal.  The argument is the one of the design: sets only grow and stay inside the union.
-   Missing (c01_exchange_complete, theorem (2)): that one lossless exchange (request, response batches in order,
-   counter-request and its batches) achieves the catch-up.  It needs C09's completeness beyond the common snapshot
-   (snapshot discipline) and success of attach / rebuild-from-storage for honest batches; of this only the attach
-   pass is proved complete (c01_attach_complete).  Equality of the in-memory HEADS (as opposed to the childless
-   members of the equal stored sets) is likewise not proved.  Both are evaluated on every replayed history:
-   model and implementation must agree step by step, and spec_C01 demands equal stored sets and equal heads at the end. *)
+(* (3, lemma) Convergence from per-pair catch-up: for any phase [ls] without local adds, with ARBITRARY deliveries in it, from
+   any state satisfying the invariants: if for every ordered pair (a, b) there is a point of the phase at which b stores
+   everything a stored when the phase began, then at the end every replica stores exactly the universe = the union of all
+   stored sets.  (Kept under its old name; the per-pair premise is discharged by c01_exchange_complete below, which gives
+   the unconditional c01_convergence.) *)
 Theorem c01_convergence_partial : forall nb w ls,
   winv w -> uinv w ->
   forallb (fun l => negb (is_add l)) ls = true ->
@@ -116,6 +111,166 @@ Theorem c01_attach_complete : forall cand (W : N -> Prop) G v,
   forall c, In c G -> W (cid c) -> In (cid c) (attach_pass G cand v).
 Proof. exact attach_pass_complete. Qed.
 Print Assumptions c01_attach_complete.
+
+(* ------------------------------------------------------------------------------------------------
+   HONEST trees.  From here on the tree root is the root of an honest tree ([honest_root]: no previous ids, no snapshot
+   base, a snapshot, id <> 0); every other change is created by LocalAdd (previous ids = the creator's heads, snapshot
+   base = its in-memory root).  Deliveries stay ARBITRARY (any heads / ids / path): a message can only name changes. *)
+
+(* (i) Snapshot discipline — an invariant of EVERY trace.  For every replica of every reachable state:
+   (D) every stored change is an ancestor of the in-memory root or has the root on its snapshot chain;
+   for every snapshot s on the replica's snapshot path, every stored change has s on its snapshot chain (is "after" s)
+   or is an ancestor of s — nothing is stored "beside" a snapshot of the path;
+   the in-memory view is exactly the stored changes that have the root on their snapshot chain. *)
+Theorem c01_snapshot_discipline : forall nb n root size ls,
+  honest_root root ->
+  let w := run nb (init_world n root size) ls in
+  forall r, In r (w_reps w) ->
+    (forall x, In x (r_have r) -> anc (wG w) x (r_root r) \/ onchain (wG w) (r_root r) x)
+    /\ (forall P s x, rep_path (wG w) r = Some P -> In s P -> In x (r_have r) -> onchain (wG w) s x \/ anc (wG w) x s)
+    /\ (forall x, In x (rep_view (wG w) r) <-> In x (r_have r) /\ onchain (wG w) (r_root r) x).
+Proof. exact snapshot_discipline_all_traces. Qed.
+Print Assumptions c01_snapshot_discipline.
+
+(* every reachable state of an honest tree satisfies the invariants the theorems below start from:
+   [sinv] = universe invariant (creation order, every change attachable at its own snapshot base, snapshot bases are
+   snapshots, one root) + per replica: causal closure, root stored and a snapshot, (D); [uinv] = universe is the union *)
+Theorem c01_reachable_honest_invariants : forall nb n root size ls,
+  honest_root root -> (0 < n)%nat ->
+  sinv (run nb (init_world n root size) ls) /\ uinv (run nb (init_world n root size) ls).
+Proof. exact reachable_sinv_uinv. Qed.
+Print Assumptions c01_reachable_honest_invariants.
+
+(* (ii) Completeness of the response (C09's c09_complete re-derived for the stored sequence [sigma_of] of a replica, with
+   its hypothesis "the requester's set is closed in the range" discharged, and extended BELOW the common snapshot by the
+   discipline): for a responder rq and a requester rp satisfying the invariants and a snapshot cs stored by the requester
+   and on the responder's snapshot chain (the common snapshot of their paths), every change the responder stores is
+   stored by the requester or is among the not-removed entries of the responder's stored range from cs on — which is
+   exactly what the batches contain (c09_exact_bounded_progress). *)
+Theorem c01_response_complete : forall U,
+  ginv (map se_ch U) ->
+  forall rq rp, rinv (map se_ch U) rq -> rinv (map se_ch U) rp ->
+  forall cs, In cs (r_have rp) -> onchain (map se_ch U) cs (r_root rq) ->
+  forall x, In x (r_have rq) ->
+    In x (r_have rp)
+    \/ In x (map se_id (nonrem (removed_of (sigma_of U rq (groot (map se_ch U))) cs (rep_heads (map se_ch U) rp))
+                               (from_id cs (sigma_of U rq (groot (map se_ch U)))))).
+Proof. exact response_complete. Qed.
+Print Assumptions c01_response_complete.
+
+(* (iii) Success of attach / rebuild-at-the-common-snapshot: a response batch [chs] with announced heads [hs] and the
+   sender's snapshot path, where the sender rq satisfies the invariants and stores chs, chs together with the receiver's
+   store is causally closed, and every change of the batch is below an announced head — is stored by the receiver
+   afterwards (normal path, rebuild path, or the hasHeads short cut). *)
+Theorem c01_batch_attached : forall G r rq chs path hs n me from r' em,
+  ginv G -> rinv G r -> rinv G rq -> rep_path G rq = Some path -> incl chs (r_have rq) ->
+  (forall x, In x chs -> forall c, find_change G x = Some c -> forall p, In p (cprev c) -> In p (r_have r) \/ In p chs) ->
+  (forall x, In x chs -> exists h, In h hs /\ anc G x h) ->
+  handle_resp G n me from r hs chs path = (r', em) -> incl chs (r_have r').
+Proof. exact deliver_resp_catch. Qed.
+Print Assumptions c01_batch_attached.
+
+(* (2a) One answered request.  In a phase without local adds from a state with the invariants: if q handles a full-sync
+   request that p made (heads and snapshot path of p at some point of the phase) and the response batches — produced by
+   the C09 loader model [next_batch] over q's stored sequence — are delivered to p in order, with ARBITRARY other steps
+   interleaved anywhere (other deliveries to p and q included, duplicates, garbage), then at the end of the phase p
+   stores everything q stored when the phase began (indeed when it answered). *)
+Theorem c01_answered_request_catches_up : forall w ls p q,
+  sinv w -> noadd ls -> (p < length (w_reps w))%nat -> (q < length (w_reps w))%nat ->
+  answered next_batch w ls p q ->
+  incl (r_have (get_rep w q)) (r_have (get_rep (run next_batch w ls) p)).
+Proof. exact answered_catch_up. Qed.
+Print Assumptions c01_answered_request_catches_up.
+
+(* (2) One exchange.  [exchange next_batch w ls i j]: somewhere in the phase i runs SyncWithPeer j, the request (i's heads
+   and snapshot path) is delivered to j, j's response batches are delivered to i in order, and if j's answer contains
+   its counter-request (it does unless i's heads are all among j's), the counter-request is delivered to i (possibly
+   overtaking the batches) and i's response batches are delivered to j in order; arbitrary other steps interleaved.
+   Then afterwards BOTH replicas store the union of what the two stored when the phase began.  (Stored sets stay
+   inside the universe = the union over all replicas, c01_universe_is_union; when nothing else is delivered to the two,
+   nothing else can arrive.) *)
+Theorem c01_exchange_complete : forall w ls i j,
+  sinv w -> noadd ls -> (i < length (w_reps w))%nat -> (j < length (w_reps w))%nat ->
+  exchange next_batch w ls i j ->
+  incl (r_have (get_rep w j)) (r_have (get_rep (run next_batch w ls) i))
+  /\ incl (r_have (get_rep w i)) (r_have (get_rep (run next_batch w ls) j)).
+Proof. exact exchange_catch_up. Qed.
+Print Assumptions c01_exchange_complete.
+
+(* (2, exact form) One lossless exchange between two replicas makes both stored sets EQUAL to the union: if in addition
+   only the two partners act in the phase, only on messages from each other, and every delivered message carries only
+   changes its sender stores at that moment ([between_ok]; true of everything replicas emit: c01_advertised_is_stored,
+   c01_responses_are_stored), nothing else can arrive. *)
+Theorem c01_exchange_exact : forall w ls i j,
+  sinv w -> (i < length (w_reps w))%nat -> (j < length (w_reps w))%nat ->
+  exchange next_batch w ls i j -> between_ok next_batch w ls i j ->
+  let w' := run next_batch w ls in
+  (forall x, In x (r_have (get_rep w' i)) <-> In x (r_have (get_rep w i)) \/ In x (r_have (get_rep w j)))
+  /\ (forall x, In x (r_have (get_rep w' j)) <-> In x (r_have (get_rep w i)) \/ In x (r_have (get_rep w j))).
+Proof. exact exchange_exact. Qed.
+Print Assumptions c01_exchange_exact.
+
+(* what a replica sends in answer to ANY full-sync request (arbitrary heads and path) in any reachable state — response
+   batches included — consists of changes it stores (the conjunct of spec_C01 that c01_advertised_is_stored left to C09) *)
+Theorem c01_responses_are_stored : forall n root size ls q p heads path w' em,
+  honest_root root ->
+  step next_batch (run next_batch (init_world n root size) ls) (Deliver q p (MReq heads path)) = (w', em) ->
+  Forall (fun e => incl (msg_changes (snd e)) (r_have (get_rep w' q))) em.
+Proof. exact reachable_req_stored. Qed.
+Print Assumptions c01_responses_are_stored.
+
+(* the in-memory heads of a replica are exactly the childless members of its stored set, whatever its in-memory root *)
+Theorem c01_heads_are_childless_stored : forall G r h, ginv G -> rinv G r ->
+  (In h (rep_heads G r) <->
+   In h (r_have r) /\ forall c, In c G -> In (cid c) (r_have r) -> ~ In h (cprev c)).
+Proof. exact heads_childless_of_store. Qed.
+Print Assumptions c01_heads_are_childless_stored.
+
+(* (3) CONVERGENCE, unconditional.  From any reachable state of an honest tree (any number of replicas, any prefix [pre]
+   of local adds / arbitrary deliveries / syncs), after any fair anti-entropy phase [ls] — no LocalAdd; every pair of
+   replicas completes an exchange, initiated by either side, in any order; arbitrary other deliveries, drops (= labels
+   that never occur), duplicates and garbage interleaved — the universe is unchanged, every replica stores exactly the
+   universe (= the union of the stored sets: all stored sets are equal), and all replicas have the same heads. *)
+Theorem c01_convergence : forall n root size pre ls,
+  honest_root root -> (0 < n)%nat ->
+  let w := run next_batch (init_world n root size) pre in
+  noadd ls -> fair next_batch w ls ->
+  let w' := run next_batch w ls in
+  wG w' = wG w
+  /\ (forall b, (b < length (w_reps w'))%nat -> forall i, In i (r_have (get_rep w' b)) <-> In i (ids (wG w')))
+  /\ (forall a b, (a < length (w_reps w'))%nat -> (b < length (w_reps w'))%nat ->
+        rep_heads (wG w') (get_rep w' a) = rep_heads (wG w') (get_rep w' b)).
+Proof. exact convergence_reachable. Qed.
+Print Assumptions c01_convergence.
+
+(* the same from any state satisfying the invariants *)
+Theorem c01_convergence_from_invariants : forall w ls,
+  sinv w -> uinv w -> noadd ls -> fair next_batch w ls ->
+  let w' := run next_batch w ls in
+  wG w' = wG w
+  /\ (forall b, (b < length (w_reps w'))%nat -> forall i, In i (r_have (get_rep w' b)) <-> In i (ids (wG w')))
+  /\ (forall a b, (a < length (w_reps w'))%nat -> (b < length (w_reps w'))%nat ->
+        rep_heads (wG w') (get_rep w' a) = rep_heads (wG w') (get_rep w' b)).
+Proof. exact convergence_all. Qed.
+Print Assumptions c01_convergence_from_invariants.
+
+(* The model satisfies the FINAL conjunct of spec_C01 (identical stored sets and identical heads, as sorted lists) after
+   every fair anti-entropy phase from every reachable state; with c01_model_meets_spec_steps_partial (per-replica
+   conjunct in every state) and c01_advertised_is_stored this is "model meets spec_C01" up to the changes of response
+   batches being stored by the responder (shown inside c01_answered_request_catches_up for honest answers). *)
+Theorem c01_model_meets_spec_final : forall n root size pre ls,
+  honest_root root -> (0 < n)%nat ->
+  let w := run next_batch (init_world n root size) pre in
+  noadd ls -> fair next_batch w ls ->
+  let w' := run next_batch w ls in
+  all_equal (observe w') = true.
+Proof. exact final_all_equal. Qed.
+Print Assumptions c01_model_meets_spec_final.
+
+(* the executable recognisers used in the examples are sound *)
+Theorem c01_fair_recogniser_sound : forall nb w ls sched, fair_by nb w ls sched = true -> fair nb w ls.
+Proof. exact fair_by_sound. Qed.
+Print Assumptions c01_fair_recogniser_sound.
 
 (* ---- non-vacuity: a history OBSERVED on three real SyncTrees (harness c01, variant "example", seed 1012):
    replica 0 makes two snapshots in a row, replica 2 concurrently adds a plain change on the tree root, one head
@@ -172,3 +327,61 @@ Example c01_nonvacuous_model :
   /\ forallb (fun l => negb (is_add l)) (skipn 5 example_labels) = true
   /\ forallb is_add (firstn 5 example_labels) = false.
 Proof. vm_compute. repeat split; reflexivity. Qed.
+
+(* ---- non-vacuity of (2)/(3): three replicas; replica 0 and replica 1 make CONCURRENT SNAPSHOTS (2 and 3, both on the tree
+   root), replica 2 adds a plain change 4; of the six head updates only 0's update reaches 1 in the first phase (1 then
+   holds both snapshots and rebuilds at the tree root) — 0's update to 2 and all updates of 1 are DROPPED, 2's update to 1
+   arrives late.  Anti-entropy phase (no local add): exchange 0-1 (request, batch, counter-request, empty response),
+   a DUPLICATE of the response batch, the late head update, exchange 0-2 with a duplicated empty response interleaved
+   between request and answer (batch [1;4], counter-request, batch [2;3] attached by REBUILD at the common snapshot),
+   exchange 2-1 (heads already equal: empty response, no counter-request). *)
+Definition ex2_root := mkChange 1 [] 0 true.
+Definition ex2_pre : list label :=
+  [LocalAdd 0 true 2 100; LocalAdd 1 true 3 100; LocalAdd 2 false 4 100; Deliver 1 0 (MHead [2] [2] [2; 1])].
+Definition ex2_phase : list label :=
+  [SyncWithPeer 0 1; Deliver 1 0 (MReq [2] [2; 1]); Deliver 0 1 (MResp [2; 3] [3] [1]); Deliver 0 1 (MReq [2; 3] [1]);
+   Deliver 1 0 (MResp [2; 3] [] [1]);
+   Deliver 0 1 (MResp [2; 3] [3] [1]); Deliver 1 2 (MHead [4] [4] [1]);
+   SyncWithPeer 0 2; Deliver 2 0 (MReq [2; 3] [1]); Deliver 1 0 (MResp [2; 3] [] [1]);
+   Deliver 0 2 (MResp [4] [1; 4] [1]); Deliver 0 2 (MReq [4] [1]); Deliver 2 0 (MResp [2; 3; 4] [2; 3] [1]);
+   SyncWithPeer 2 1; Deliver 1 2 (MReq [2; 3; 4] [1]); Deliver 2 1 (MResp [2; 3; 4] [] [1])].
+Definition ex2_w := run next_batch (init_world 3 ex2_root 63) ex2_pre.
+(* (initiator, peer, index of SyncWithPeer, labels before the request delivery, index of the counter-request after it) *)
+Definition ex2_sched : list (nat * nat * nat * nat * nat) := [(0, 1, 0, 0, 1); (0, 2, 7, 0, 2); (2, 1, 13, 0, 0)]%nat.
+
+(* the premises of c01_convergence hold of this trace ... *)
+Example c01_convergence_nonvacuous :
+  honest_root ex2_root /\ noadd ex2_phase /\ fair next_batch ex2_w ex2_phase.
+Proof.
+  split; [vm_compute; repeat split; discriminate|]. split; [vm_compute; reflexivity|].
+  apply (fair_by_sound next_batch ex2_w ex2_phase ex2_sched). vm_compute. reflexivity.
+Qed.
+
+(* ... the states before and after are as described (stored set, in-memory root, heads), and the three stored sets were
+   pairwise different before the phase *)
+Example c01_convergence_nonvacuous_states :
+  map (fun r => (isort (r_have r), r_root r, rep_heads (wG ex2_w) r)) (w_reps ex2_w)
+    = [([1; 2], 2, [2]); ([1; 2; 3], 1, [2; 3]); ([1; 4], 1, [4])]
+  /\ (let w' := run next_batch ex2_w ex2_phase in
+      map (fun r => (isort (r_have r), r_root r, rep_heads (wG w') r)) (w_reps w')
+        = [([1; 2; 3; 4], 1, [2; 3; 4]); ([1; 2; 3; 4], 1, [2; 3; 4]); ([1; 2; 3; 4], 1, [2; 3; 4])])
+  /\ exchange_at next_batch ex2_w ex2_phase 0 2 7 0 2 = true.
+Proof. vm_compute. repeat split; reflexivity. Qed.
+
+(* the snapshot discipline is not vacuous: after the first phase replica 1 stores two concurrent snapshots and has moved its
+   in-memory root back to the tree root; replica 0 keeps its own snapshot as root and stores nothing beside it *)
+Example c01_snapshot_discipline_nonvacuous :
+  map (fun r => (r_root r, path_or_nil (wG ex2_w) r, rep_view (wG ex2_w) r)) (w_reps ex2_w)
+    = [(2, [2; 1], [2]); (1, [1], [3; 2; 1]); (1, [1], [4; 1])].
+Proof. vm_compute. reflexivity. Qed.
+
+(* non-vacuity of c01_exchange_exact: the first exchange of the phase above on its own (SyncWithPeer, request, batch,
+   counter-request, empty response) — only 0 and 1 act — leaves both with exactly {1,2} U {1,2,3} *)
+Example c01_exchange_exact_nonvacuous :
+  let ls := firstn 5 ex2_phase in
+  exchange next_batch ex2_w ls 0 1 /\ between_ok next_batch ex2_w ls 0 1
+  /\ map (fun r => isort (r_have r)) (w_reps (run next_batch ex2_w ls)) = [[1; 2; 3]; [1; 2; 3]; [1; 4]].
+Proof.
+  split; [apply (exchange_at_sound next_batch ex2_w _ 0 1 0 0 1); vm_compute; reflexivity|].
+  split; [apply between_b_sound; vm_compute; reflexivity | vm_compute; reflexivity].
+Qed.
